@@ -23,7 +23,11 @@ notes = open(os.path.join(src, "NOTES.md")).read() if os.path.exists(os.path.joi
 meta = {"seed": name, "property": pid, "steps": {}}
 os.makedirs("/tmp/vs", exist_ok=True)
 sh(f"git -C /repo worktree remove --force {wt}")
-rc, out = sh(f"git -C /repo worktree add --detach {wt} HEAD")
+PIN = open("/root/.vp/repo_root_sha").read().strip() if os.path.exists("/root/.vp/repo_root_sha") else "HEAD"
+rc, out = sh(f"git -C /repo worktree add --detach {wt} {PIN}")
+if rc != 0:
+    PIN = subprocess.check_output("git -C /repo rev-list --max-parents=0 HEAD", shell=True, text=True).split()[0]
+    rc, out = sh(f"git -C /repo worktree add --detach {wt} {PIN}")
 assert rc == 0, out
 ok = True
 try:
@@ -68,8 +72,18 @@ try:
         meta["steps"]["stable_tests_output"] = out.strip().splitlines()[:6]
     r = run_demos()
     meta["steps"]["demo_fails_with_patch"] = any(rc != 0 for rc, _ in r)
+    # checks run against the current /repo HEAD (with any fix: commits) plus the seeded change; only reports that are
+    # new relative to the unpatched HEAD count as detections
+    sh("git checkout -- . && git clean -fdq", cwd=wt)
+    sh("git checkout -q --detach $(git -C /repo rev-parse HEAD)", cwd=wt)
+    rc, base_out = sh(f"REPO_DIR={wt} /verif/check all quick", timeout=1200)
+    base = set(re.findall(r"^VIOLATION property=(C\d+).*?key=(\S+)", base_out, re.M))
+    rc, out = sh(f"git apply --3way {os.path.join(src, 'patch.diff')}", cwd=wt)
+    meta["steps"]["patch_applies_on_head"] = rc == 0
+    sh("git reset -q", cwd=wt)
     rc, out = sh(f"REPO_DIR={wt} /verif/check all quick", timeout=1200)
-    fired = sorted(set(re.findall(r"^VIOLATION property=(C\d+).*?key=(\S+)", out, re.M)))
+    fired = sorted(set(re.findall(r"^VIOLATION property=(C\d+).*?key=(\S+)", out, re.M)) - base)
+    meta["checker_broken"] = "BROKEN" in out
     meta["checks_fired"] = [{"property": p, "key": k} for p, k in fired]
     meta["caught_by_own_property"] = any(p == pid for p, _ in fired)
     meta["caught"] = bool(fired)
